@@ -33,15 +33,36 @@ def gen_history(rnd):
     decl = {}
     exprs = []
     prev = None
+    # Einsums whose temporal ranks SPELL the same string as their neighbours' without being
+    # the same ranks: a rank literally named "MK" beside ranks M, K; or (M, K) flattened
+    merged = {}           # Einsum index -> ("literal" | "flatten", r1, r2)
+    if len(ranks) >= 2 and rnd.random() < 0.3:
+        for i in range(n):
+            if rnd.random() < 0.4:
+                r1, r2 = ranks[0], ranks[1]
+                merged[i] = (rnd.choice(["literal", "flatten"]), r1, r2)
     for i in range(n):
         out = "T%d" % i
         a = "A%d" % i
+        if i in merged and merged[i][0] == "literal":
+            _, r1, r2 = merged[i]
+            rs = [r1 + r2] + list(ranks[2:])
+            decl[a] = list(rs)
+            decl[out] = list(rs)
+            exprs.append(Einsum(Acc(out, [[(1, r.lower())] for r in rs]),
+                                [Term("times", [Acc(a, [[(1, r.lower())] for r in rs])])]))
+            prev = None
+            continue
         decl[a] = list(ranks)
         fs = [Acc(a, [[(1, r.lower())] for r in ranks])]
         if prev and rnd.random() < 0.7:
-            fs.append(Acc(prev, [[(1, r.lower())] for r in ranks]))
-        decl[out] = list(ranks)
-        exprs.append(Einsum(Acc(out, [[(1, r.lower())] for r in ranks]), [Term("times", fs)]))
+            fs.append(Acc(prev, [[(1, r.lower())] for r in decl[prev]]))
+        ors = list(ranks)
+        if i in merged:
+            # the output may hold only one of the flattened ranks
+            ors = [r for r in ranks if r != merged[i][2]]
+        decl[out] = ors
+        exprs.append(Einsum(Acc(out, [[(1, r.lower())] for r in ors]), [Term("times", fs)]))
         prev = out
     # few distinct loop orders and space/time splits so that prefixes often coincide
     orders = [list(ranks)]
@@ -74,12 +95,20 @@ def gen_history(rnd):
     st = {}
     lo = {}
     cur = rnd.randrange(nconf)
+    parts = {}
     for i in range(n):
         out = "T%d" % i
         if rnd.random() < 0.25:
             cur = rnd.randrange(nconf)
         lo_i = rnd.choice(orders)
+        if i in merged:
+            _, r1, r2 = merged[i]
+            lo_i = [r1 + r2] + list(ranks[2:])
+            if merged[i][0] == "flatten":
+                parts[out] = {"(%s, %s)" % (r1, r2): ["flatten()"]}
         k = rnd.choice(splits)
+        time, space = list(lo_i[:k]), list(lo_i[k:])
+        k = min(k, len(lo_i))
         time, space = list(lo_i[:k]), list(lo_i[k:])
         if lo_i != list(ranks) or rnd.random() < 0.3:
             lo[out] = list(lo_i)
@@ -93,15 +122,17 @@ def gen_history(rnd):
             if nm.startswith("Mul"):
                 b += ["  - component: %s" % nm, "    bindings:", "    - op: mul"]
             else:
-                b += ["  - component: %s" % nm, "    bindings:", "    - rank: %s" % ranks[0]]
+                b += ["  - component: %s" % nm, "    bindings:", "    - rank: %s" % lo_i[0]]
     fmt = ["format:"]
     for t, rs in decl.items():
         fmt += ["  %s:" % t, "    default:", "      rank-order: [%s]" % ", ".join(rs)]
         for r in rs:
             fmt += ["      %s:" % r, "        format: C", "        pbits: 32"]
     spec = Spec(decl, exprs, loop_order=(lo or None), spacetime=st,
+                partitioning=(parts or None),
                 extra="\n".join(arch + b + fmt) + "\n",
-                tags=["history%d" % n, "configs%d" % nconf])
+                tags=["history%d" % n, "configs%d" % nconf] +
+                (["ranks-spelling-alike"] if merged else []))
     return spec
 
 
